@@ -617,6 +617,14 @@ func (p *InlineParser) parseBackslash(state *inlineState, start int) (end int) {
 			// Hard line breaks not permitted at end of block.
 			newNode.kind = TextKind
 		} else {
+			// The line ending is part of the hard line break
+			// (otherwise it would be emitted again as a soft line break).
+			if end := newNode.span.End; end < state.spanEnd() && state.source[end] == '\r' {
+				newNode.span.End++
+			}
+			if end := newNode.span.End; end < state.spanEnd() && state.source[end] == '\n' {
+				newNode.span.End++
+			}
 			// Leading spaces at the beginning of the next line are ignored.
 			state.ignoreNextIndent = true
 		}
